@@ -29,6 +29,23 @@ MODULE_NUMBERS = {"z", "pi", "e", "inf", "nan"}
 PURE_OF_LITERAL = {"len", "sqrt", "abs", "float", "int"}
 
 
+CONTAINER_METHODS = {"append", "extend", "insert", "pop", "popleft", "appendleft", "remove", "clear", "index", "count",
+                     "get", "setdefault", "update", "items", "keys", "values", "add", "discard", "byteswap", "pack",
+                     "unpack", "write", "read", "readframes", "join", "format", "startswith", "endswith", "copy", "sort",
+                     "reverse", "rotate", "tobytes", "tostring", "frombytes"}
+
+
+def method_names(trees):
+    """names defined by ``def`` directly in a class body of the package"""
+    out = set()
+    for t in trees:
+        for c in [n for n in ast.walk(t) if isinstance(n, ast.ClassDef)]:
+            for m in c.body:
+                if isinstance(m, FuncTypes):
+                    out.add(m.name)
+    return out
+
+
 def rebinding_sites(trees):
     """({attr: set(class names where ``self.attr`` is re-bound outside __init__)}, set(attr re-bound through another
     receiver or outside any method))"""
@@ -101,13 +118,59 @@ class _Subst(ast.NodeTransformer):
         return n
 
 
-def write_back(tree, related_classes, sites, only=None, keep=()):
+def _suspended_before_use(stmts, v):
+    """can a ``yield`` / ``await`` run between the start of ``stmts`` and a read of ``v`` in them (loops taken twice)?"""
+    SUSP = (ast.Yield, ast.YieldFrom, ast.Await)
+    bad = [False]
+
+    def expr(e, yielded):
+        if e is None:
+            return yielded
+        nodes = list(ast.walk(e))
+        if yielded and any(isinstance(n, ast.Name) and n.id == v and isinstance(n.ctx, ast.Load) for n in nodes):
+            bad[0] = True
+        return yielded or any(isinstance(n, SUSP) for n in nodes)
+
+    def block(body, yielded):
+        for st in body:
+            if isinstance(st, FuncTypes + (ast.ClassDef,)):
+                if any(isinstance(n, ast.Name) and n.id == v for n in ast.walk(st)):
+                    bad[0] = True       # read from a nested scope: whenever that runs
+                continue
+            if isinstance(st, ast.If):
+                y0 = expr(st.test, yielded)
+                yielded = block(st.body, y0) | block(st.orelse, y0)
+            elif isinstance(st, (ast.For, ast.AsyncFor, ast.While)):
+                y0 = expr(st.iter if hasattr(st, "iter") else st.test, yielded)
+                y1 = block(st.body, y0)
+                if hasattr(st, "test"):
+                    y1 = expr(st.test, y1)
+                y2 = block(st.body, y1)             # second iteration: what the first one left
+                yielded = block(st.orelse, y0 | y2) | y0 | y2
+            elif isinstance(st, (ast.With, ast.AsyncWith)):
+                for it_ in st.items:
+                    yielded = expr(it_.context_expr, yielded)
+                yielded = block(st.body, yielded)
+            elif isinstance(st, ast.Try):
+                y1 = block(st.body, yielded)
+                ys = [block(h.body, yielded | y1) for h in st.handlers]
+                y2 = block(st.orelse, y1)
+                yielded = block(st.finalbody, y1 | y2 | any(ys)) | y1 | y2 | any(ys)
+            else:
+                yielded = expr(st, yielded)
+        return yielded
+    block(stmts, False)
+    return bad[0]
+
+
+def write_back(tree, related_classes, sites, only=None, keep=(), methods=()):
     """rewrite the functions of ``tree`` in place (``only``: restrict to these function nodes and what is nested in
     them); returns the list of 'function: local' written back.
     ``related_classes(cls)``: the classes tied to cls by inheritance (itself included); ``keep``: texts of bindings
     that stay as they are (the confirmed tree writes them too)"""
     by_class, anywhere = sites
     keep = set(keep)
+    methods = set(methods) | CONTAINER_METHODS
     done = []
     module_names = set()
     for st in tree.body:
@@ -165,6 +228,8 @@ def write_back(tree, related_classes, sites, only=None, keep=()):
                 return not (where & related_classes(root_cls))
             return False
 
+        public = [False]
+
         def classify(e, locals_used, numeric):
             """True when e is of an accepted form; fills locals_used; numeric[0] stays True while every leaf is a number"""
             if isinstance(e, ast.Constant):
@@ -195,6 +260,9 @@ def write_back(tree, related_classes, sites, only=None, keep=()):
                     direct = isinstance(cur.value, ast.Name)
                     if not attr_stable(root_cls if direct else None, cur.attr):
                         return False
+                    if not cur.attr.startswith("_") and cur.attr not in methods:
+                        # a public data attribute: callers may assign it whenever this frame is suspended
+                        public[0] = True
                     cur = cur.value
                 return classify(root, locals_used, [True])
             if isinstance(e, ast.BinOp) and isinstance(e.op, (ast.Add, ast.Sub, ast.Mult, ast.Div, ast.Pow, ast.FloorDiv, ast.Mod)):
@@ -285,7 +353,7 @@ def write_back(tree, related_classes, sites, only=None, keep=()):
                     if not isinstance(st, FuncTypes + (ast.ClassDef,)):
                         todo.append(st)
                     if isinstance(st, FuncTypes) and not st.decorator_list and not isinstance(st, ast.AsyncFunctionDef) \
-                            and len(stores.get(st.name, [])) == 1 and ast.unparse(st) not in keep:
+                            and len(stores.get(st.name, [])) == 1 and ("def " + st.name) not in keep:
                         # def f(x): return E   handed on once as a value: the lambda it is
                         b_ = [x for x in st.body if not (isinstance(x, ast.Expr) and isinstance(x.value, ast.Constant))]
                         a_ = st.args
@@ -308,8 +376,10 @@ def write_back(tree, related_classes, sites, only=None, keep=()):
                     if isinstance(e, (ast.Constant, ast.Name)) and not (isinstance(e, ast.Constant) and isinstance(e.value, (str, int, float))):
                         continue            # plain copies of names are the business of the equivalence engine
                     locals_used, numeric = set(), [True]
+                    public[0] = False
                     if not classify(e, locals_used, numeric):
                         continue
+                    reads_public = public[0]
                     plain_attr = isinstance(e, (ast.Attribute, ast.Lambda, ast.Constant))
                     if isinstance(e, (ast.Dict, ast.Tuple)):
                         # every use is a look-up  v[...]
@@ -328,6 +398,8 @@ def write_back(tree, related_classes, sites, only=None, keep=()):
                         continue
                     if not (plain_attr or numeric[0] or len(all_loads) == 1):
                         continue
+                    if reads_public and _suspended_before_use(blk[i + 1:], v):
+                        continue            # the frame can be suspended between the binding and a use
                     # a name the value reads is not re-bound at or after the binding (nor in a nested scope)
                     stale = False
                     for L in locals_used:
